@@ -25,6 +25,32 @@ RESULT_TYPES = {"Context", "Frame", "Stack", "FrameDetails", "FrameDetails.Final
 SOURCE_CALLS = {"sys._getframe", "sys._current_frames", "gc.get_referents", "threading.enumerate", "greenlet_getcurrent", "get_true_caller", "inspect.getargvalues"}
 
 
+class _ScalarAnn:
+    """annotations of values that cannot hold a reference into the observed program: scalars, code objects, and (nested)
+    tuples / frozensets / Optionals of those"""
+    BASE = {"bool", "int", "float", "str", "bytes", "None", "types.CodeType", "CodeType"}
+
+    def match(self, ann: str) -> bool:
+        try:
+            e = ast.parse(ann.strip(), mode="eval").body
+        except SyntaxError:
+            return False
+        return self._ok(e)
+
+    def _ok(self, e: ast.AST) -> bool:
+        if isinstance(e, ast.Constant):
+            return e.value is None or e.value is Ellipsis or (isinstance(e.value, str) and self.match(e.value))
+        if isinstance(e, (ast.Name, ast.Attribute)):
+            return ast.unparse(e) in self.BASE
+        if isinstance(e, ast.BinOp) and isinstance(e.op, ast.BitOr):
+            return self._ok(e.left) and self._ok(e.right)
+        if isinstance(e, ast.Subscript) and ast.unparse(e.value) in ("Optional", "Tuple", "tuple", "FrozenSet", "frozenset", "typing.Optional", "typing.Tuple", "Union"):
+            sl = e.slice
+            elts = list(sl.elts) if isinstance(sl, ast.Tuple) else [sl]
+            return bool(elts) and all(self._ok(x) for x in elts)
+        return False
+
+
 def expr_tainted(e: Optional[ast.AST], tainted: Set[str]) -> bool:
     if e is None:
         return False
@@ -74,7 +100,7 @@ def tainted_names(fn: ast.AST, clean_params: Set[str] = frozenset(), inherited: 
     import re as _re
     # numbers, flags, strings and code objects are not the observed program's *state*: holding one keeps no frame, generator or
     # manager alive (a code object is the function's immutable code)
-    scalar = _re.compile(r"^(Optional\[)?(bool|int|float|str|bytes|types\.CodeType|CodeType)(\])?$|^(bool|int|float|str|bytes|types\.CodeType|CodeType) \| None$|^None \| (bool|int|float|str|bytes|types\.CodeType|CodeType)$")
+    scalar = _ScalarAnn()
     for x in a.posonlyargs + a.args + a.kwonlyargs:
         if x.arg not in clean_params and x.arg not in ("self", "cls"):
             ann = ast.unparse(x.annotation).strip("'\"") if x.annotation is not None else ""
